@@ -3,13 +3,13 @@
 
 namespace hz {
 static const Info I = {
-    "C08", 1, 65, 60000, true, true,
+    "C08", 1, 69, 60000, true, true,
     "same generator as C07 (2..4 contenders, coroutine/thread flavour, 1..3 rounds of lock flavours x release styles, generated + swept schedules). "
     "Oracle over the recorded call history (logical clock ticks at call boundaries): interval-order FIFO (a request whose lock() had returned "
     "suspended before another request's call began is granted first), direct hand-off (no try_lock succeeds while a registered waiter waits "
     "through the whole call), every request granted (deadlock/livelock detector), final try_lock succeeds after all releases. "
     "Non-trivial = at least one request had to wait AND a context switch happened inside a library operation; distinct = hash of (decoded program, executed switch trace).",
-    scen_mutex::class_names, 6, scen_mutex::counter_names, 5};
+    scen_mutex::class_names, 6, scen_mutex::counter_names, 6};
 const Info &info() { return I; }
 void run_case(Reader &r) { scen_mutex::run(r, scen_mutex::O_FIFO); }
 std::string describe(Reader &r) { return scen_mutex::describe(scen_mutex::decode(r)); }
